@@ -1,5 +1,5 @@
 """C13 - a MultiChain is its chains, sharing identical tasks."""
-from ..store_check import run_families
+from ..store_check import scaled, run_families
 
 RELEVANT = {'share', 'held', 'construct', 'value', 'runs', 'forced', 'visible', 'error'}
 
@@ -33,19 +33,7 @@ def plans(quick):
                  cover_limit=100, walks=30),
             dict(family='names', name_mode=True, opts=opts, gen=dict(steps=4, slots=1, rcs=['top1', 'top2'], lists=[['top1', 'top2'], ['top1']], fail=False, restart=False), cover_limit=120, walks=40, sim=dict(num=80, depth=10, slots=1, rcs=['top1', 'top2', 'model'], lists=[['top1', 'top2'], ['top1'], ['model']])),
         ]
-    return [
-        dict(family='names', name_mode=True, opts=opts, checks=[dict(steps=4, slots=1, rcs=['top1', 'top2'], lists=[['top1', 'top2'], ['top1']])], gen=dict(steps=5, slots=1, rcs=['top1', 'top2'], lists=[['top1', 'top2'], ['top1']]), walks=200, sim=dict(num=600, depth=14, slots=1)),
-        dict(family='deep', opts=opts, checks=[dict(steps=5, slots=1, lists=[['e1', 'e2']])],
-             gen=dict(steps=5, slots=1, lists=[['e1', 'e2']]), walks=200, sim=dict(num=800, depth=14, slots=1)),
-    ] + [
-        dict(family=f, opts=opts, checks=[dict(steps=5, slots=2)],
-             gen=dict(steps=5, slots=1, lists=[l for l in ls]), walks=300, walk_len=14,
-             sim=dict(num=700, depth=16, slots=2))
-        for f, ls in (('chain', [['r1', 'r2'], ['r1', 'r3'], ['r1', 'r4']]),
-                      ('mounts', [['u1', 'm12'], ['c11'], ['c21'], ['ml', 'mr']]),
-                      ('diamond', [['d1', 'd2'], ['d2', 'd3']]),
-                      ('levels', [['v1', 'v2'], ['v3'], ['v2', 'v3'], ['v2', 'v4']]))
-    ]
+    return scaled(plans(True), 3)
 
 
 def _force_missing(_):
